@@ -3,7 +3,7 @@
    semantics (Lang/Sem.v), which the implementation is compared with on every run. *)
 From Coq Require Import ZArith String List Bool QArith Sorted.
 From Bardolph Require Import Gen.Codes Lang.Value Lang.Instr Lang.Loader Lang.World Lang.Regs Lang.Machine Lang.Syntax Lang.Sem Lang.CodeGen
-  Lang.Loops Lang.ExprCompile Lang.Simulation Lang.CallFrames Lang.RangeLoop Lang.CountWith Lang.Simulation3.
+  Lang.Loops Lang.ExprCompile Lang.Simulation Lang.CallFrames Lang.RangeLoop Lang.CountWith Lang.LightScan Lang.LightLoop Lang.Simulation3.
 Import ListNotations.
 Open Scope Z_scope.
 
@@ -116,10 +116,10 @@ Print Assumptions C04_members_each_once.
 Theorem C04_range_loop_compiled_runs_as_its_source_says :
   forall rt mt, bodies_ok rt mt -> forall (inr : bool) v a b body, plain_rval mt a = true -> plain_rval mt b = true -> SimpleB rt mt true inr body ->
   forall after im ss s sig ss' fuel, routines_loaded rt mt im -> in_ret_ok inr (m_frames s) ->
-  depth_ok (m_frames s) (zlength (m_stack s)) -> sim ss s ->
+  in_depth_ok inr s -> sim ss s ->
   code_at im (m_pc s) (c_stmt rt mt false after (SRepeat (LRange v a b) body)) ->
   Sem.exec rt mt fuel false ss (SRepeat (LRange v a b) body) = ROk sig ss' ->
-  outcome after im ss s sig ss' (c_stmt rt mt false after (SRepeat (LRange v a b) body)).
+  outcome inr after im ss s sig ss' (c_stmt rt mt false after (SRepeat (LRange v a b) body)).
 Proof. exact range_loop_simulation. Qed.
 Print Assumptions C04_range_loop_compiled_runs_as_its_source_says.
 
@@ -127,10 +127,10 @@ Print Assumptions C04_range_loop_compiled_runs_as_its_source_says.
 Theorem C04_interpolating_loop_compiled_runs_as_its_source_says :
   forall rt mt, bodies_ok rt mt -> forall (inr : bool) n v a b body, plain_rval mt n = true -> plain_rval mt a = true -> plain_rval mt b = true -> SimpleB rt mt true inr body ->
   forall after im ss s sig ss' fuel, routines_loaded rt mt im -> in_ret_ok inr (m_frames s) ->
-  depth_ok (m_frames s) (zlength (m_stack s)) -> sim ss s ->
+  in_depth_ok inr s -> sim ss s ->
   code_at im (m_pc s) (c_stmt rt mt false after (SRepeat (LCountWith n (WRange v a b)) body)) ->
   Sem.exec rt mt fuel false ss (SRepeat (LCountWith n (WRange v a b)) body) = ROk sig ss' ->
-  outcome after im ss s sig ss' (c_stmt rt mt false after (SRepeat (LCountWith n (WRange v a b)) body)).
+  outcome inr after im ss s sig ss' (c_stmt rt mt false after (SRepeat (LCountWith n (WRange v a b)) body)).
 Proof. exact interpolating_loop_simulation. Qed.
 Print Assumptions C04_interpolating_loop_compiled_runs_as_its_source_says.
 
@@ -139,9 +139,38 @@ Print Assumptions C04_interpolating_loop_compiled_runs_as_its_source_says.
 Theorem C04_cycle_loop_compiled_runs_as_its_source_says :
   forall rt mt, bodies_ok rt mt -> forall (inr : bool) n v start body, plain_rval mt n = true -> plain_opt mt start = true -> SimpleB rt mt true inr body ->
   forall after im ss s sig ss' fuel, routines_loaded rt mt im -> in_ret_ok inr (m_frames s) ->
-  depth_ok (m_frames s) (zlength (m_stack s)) -> sim ss s ->
+  in_depth_ok inr s -> sim ss s ->
   code_at im (m_pc s) (c_stmt rt mt false after (SRepeat (LCountWith n (WCycle v start)) body)) ->
   Sem.exec rt mt fuel false ss (SRepeat (LCountWith n (WCycle v start)) body) = ROk sig ss' ->
-  outcome after im ss s sig ss' (c_stmt rt mt false after (SRepeat (LCountWith n (WCycle v start)) body)).
+  outcome inr after im ss s sig ss' (c_stmt rt mt false after (SRepeat (LCountWith n (WCycle v start)) body)).
 Proof. exact cycle_loop_simulation. Qed.
 Print Assumptions C04_cycle_loop_compiled_runs_as_its_source_says.
+
+(* The loops over lights in the compiled code: `repeat all as x`, `repeat group as g`, `repeat location as l`, each with or without a
+   `with v from a to b` / `with v cycle [start]` clause, have the shape [light_form]: LOOP; the scan that pushes every name -- DISC
+   and DNEXT walk the sorted list from its last name to its first, so the first name ends on top -- and counts them; the `with` code;
+   the test of the counter; POP x; the body; the count-down and the step of the `with` variable; END_LOOP ... *)
+Theorem C04_repeat_all_is_a_light_loop : forall rt mt x w, plain_with_opt mt w = true ->
+  light_form rt mt (LAll x w) x (with_ov rt mt w) (scan_pre rt mt OD_LIGHT (PLoopVar LV_CURRENT) w).
+Proof. exact lall_form. Qed.
+Print Assumptions C04_repeat_all_is_a_light_loop.
+Theorem C04_repeat_group_is_a_light_loop : forall rt mt x w, plain_with_opt mt w = true ->
+  light_form rt mt (LGroups x w) x (with_ov rt mt w) (scan_pre rt mt OD_GROUP (PReg R_RESULT) w).
+Proof. exact lgroups_form. Qed.
+Print Assumptions C04_repeat_group_is_a_light_loop.
+Theorem C04_repeat_location_is_a_light_loop : forall rt mt x w, plain_with_opt mt w = true ->
+  light_form rt mt (LLocations x w) x (with_ov rt mt w) (scan_pre rt mt OD_LOCATION (PReg R_RESULT) w).
+Proof. exact llocations_form. Qed.
+Print Assumptions C04_repeat_location_is_a_light_loop.
+
+(* ... and every loop of that shape, its body made of the covered statements (it may break -- the names not yet visited go with the loop
+   frame -- and call routines, but not return), run on the machine model, binds x to each name exactly once in name order and ends where
+   the reference semantics says with the same events -- for every population, the empty one and one with an empty label included. *)
+Theorem C04_light_loop_compiled_runs_as_its_source_says :
+  forall rt mt, bodies_ok rt mt -> forall l x ov pre body, light_form rt mt l x ov pre -> SimpleB rt mt true false body ->
+  forall after im ss s sig ss' fuel, routines_loaded rt mt im -> sim ss s ->
+  code_at im (m_pc s) (c_stmt rt mt false after (SRepeat l body)) ->
+  Sem.exec rt mt fuel false ss (SRepeat l body) = ROk sig ss' ->
+  outcome false after im ss s sig ss' (c_stmt rt mt false after (SRepeat l body)).
+Proof. exact light_loop_simulation. Qed.
+Print Assumptions C04_light_loop_compiled_runs_as_its_source_says.
